@@ -92,6 +92,17 @@ Example C06_ex_parse_go :
   exists pi', parse_go pi 3 8 = Some (mkexpr (bs "x > 1") (mkpos 7 1 5) (mkpos 12 1 10), pi') /\
   range_okb src (mkexpr (bs "x > 1") (mkpos 7 1 5) (mkpos 12 1 10)) = true.
 Proof. cbn zeta. split; [apply take_wf, wf_new|]. split; [auto with arith|]. split; [vm_compute; auto with arith|]. eexists. split; vm_compute; reflexivity. Qed.
+(* the start offset an extractor answers may lie beyond a line break (`else if` LF condition: goexpression.If skips
+   "if" and one more byte, whatever it is): parse_go looks the position of in_idx + start up, so the range starts on
+   the next line at column 0; adding the offset to the keyword's line and column instead is refuted by range_okb *)
+Example C06_ex_parse_go_next_line :
+  let src := bs "} else if" ++ [x0a] ++ bs "x == 2 {" in
+  let pi := take_ (new_input src) 7 in
+  wf pi /\
+  (exists pi', parse_go pi 3 9 = Some (mkexpr (bs "x == 2") (mkpos 10 1 0) (mkpos 16 1 6), pi')) /\
+  range_okb src (mkexpr (bs "x == 2") (mkpos 10 1 0) (mkpos 16 1 6)) = true /\
+  range_okb src (mkexpr (bs "x == 2") (mkpos 10 0 10) (mkpos 16 1 6)) = false.
+Proof. cbn zeta. split; [apply take_wf, wf_new|]. split; [eexists; vm_compute; reflexivity|]. split; vm_compute; reflexivity. Qed.
 Example C06_ex_spread :
   let src := bs "<a { at... }>" in
   spread_fix (mkexpr (bs "at...") (mkpos 5 0 5) (mkpos 10 0 10)) = Some (mkexpr (bs "at") (mkpos 5 0 5) (mkpos 7 0 7)) /\
